@@ -17,6 +17,8 @@ import (
 	"fmt"
 	"io"
 	"math/big"
+	"os"
+	"runtime/pprof"
 	"strings"
 	"testing/iotest"
 
@@ -362,9 +364,10 @@ type grp struct {
 }
 
 type pexp struct {
-	op   string // null base var add sub neg mul pair
+	op   string // null base var add sub neg mul pair | subself addneg mulsum (one object used twice / scalar reached by an operation)
 	a, b *pexp
 	k    *big.Int
+	k2   *big.Int    // mulsum: the scalar is Add(k, k2)
 	pt   kyber.Point // var
 	d    *big.Int    // var: logarithm assigned in the model run
 	how  string
@@ -388,6 +391,12 @@ func (e *pexp) coq() string {
 		return "(PMul " + vh.CoqZ(e.k) + " " + e.a.coq() + ")"
 	case "pair":
 		return "(PPair " + e.a.coq() + " " + e.b.coq() + ")"
+	case "subself":
+		return "(PSub " + e.a.coq() + " " + e.a.coq() + ")"
+	case "addneg":
+		return "(PAdd " + e.a.coq() + " (PNeg " + e.a.coq() + "))"
+	case "mulsum":
+		return "(PMul " + vh.CoqZ(new(big.Int).Add(e.k, e.k2)) + " " + e.a.coq() + ")"
 	}
 	panic("bad pexp")
 }
@@ -410,6 +419,12 @@ func (e *pexp) String() string {
 		return "Mul(" + e.k.String() + "," + e.a.String() + ")"
 	case "pair":
 		return "Pair(" + e.a.String() + "," + e.b.String() + ")"
+	case "subself":
+		return "Sub(X,X) with the one object X=" + e.a.String()
+	case "addneg":
+		return "Add(X,Neg(X)) with the one object X=" + e.a.String()
+	case "mulsum":
+		return "Mul(Scalar.Add(" + e.k.String() + "," + e.k2.String() + ")," + e.a.String() + ")"
 	}
 	return "?"
 }
@@ -434,6 +449,9 @@ func (e *pexp) dlog(q *big.Int) *big.Int {
 		r.Mul(e.k, e.a.dlog(q))
 	case "pair":
 		r.Mul(e.a.dlog(q), e.b.dlog(q))
+	case "subself", "addneg":
+	case "mulsum":
+		r.Mul(new(big.Int).Add(e.k, e.k2), e.a.dlog(q))
 	}
 	return r.Mod(r, q)
 }
@@ -469,16 +487,30 @@ func (e *pexp) eval(G *grp) kyber.Point {
 		return G.g.Point().Mul(scalarOf(G.g, e.k), e.a.eval(G))
 	case "pair":
 		return G.suite.Pair(e.a.eval(G.g1), e.b.eval(G.g2))
+	case "subself": // the SAME object as both operands
+		x := e.a.eval(G)
+		return G.g.Point().Sub(x, x)
+	case "addneg":
+		x := e.a.eval(G)
+		return G.g.Point().Add(x, G.g.Point().Neg(x))
+	case "mulsum": // the scalar itself is the result of an operation
+		s := G.g.Scalar().Add(scalarOf(G.g, e.k), scalarOf(G.g, e.k2))
+		return G.g.Point().Mul(s, e.a.eval(G))
 	}
 	panic("bad pexp")
 }
 
-func null() *pexp                 { return &pexp{op: "null"} }
-func base() *pexp                 { return &pexp{op: "base"} }
-func add(a, b *pexp) *pexp        { return &pexp{op: "add", a: a, b: b} }
-func sub(a, b *pexp) *pexp        { return &pexp{op: "sub", a: a, b: b} }
-func neg(a *pexp) *pexp           { return &pexp{op: "neg", a: a} }
-func pairE(a, b *pexp) *pexp      { return &pexp{op: "pair", a: a, b: b} }
+func null() *pexp            { return &pexp{op: "null"} }
+func base() *pexp            { return &pexp{op: "base"} }
+func add(a, b *pexp) *pexp   { return &pexp{op: "add", a: a, b: b} }
+func sub(a, b *pexp) *pexp   { return &pexp{op: "sub", a: a, b: b} }
+func neg(a *pexp) *pexp      { return &pexp{op: "neg", a: a} }
+func pairE(a, b *pexp) *pexp { return &pexp{op: "pair", a: a, b: b} }
+func subSelf(a *pexp) *pexp  { return &pexp{op: "subself", a: a} }
+func addNeg(a *pexp) *pexp   { return &pexp{op: "addneg", a: a} }
+func mulSum(k, k2 *big.Int, a *pexp) *pexp {
+	return &pexp{op: "mulsum", k: new(big.Int).Set(k), k2: new(big.Int).Set(k2), a: a}
+}
 func mulI(k int64, a *pexp) *pexp { return mul(big.NewInt(k), a) }
 func mul(k *big.Int, a *pexp) *pexp {
 	return &pexp{op: "mul", k: new(big.Int).Set(k), a: a}
@@ -594,7 +626,7 @@ func pool(G *grp, r *vh.Rng, forced *pexp) []*pexp {
 
 // pointBattery evaluates clauses (a), (b), (d), (e) of the property on one point
 // and returns its encoding.
-func (g *gen) pointBattery(G *grp, p kyber.Point, path string, r *vh.Rng) ([]byte, bool) {
+func (g *gen) pointBattery(G *grp, p kyber.Point, path string, r *vh.Rng, light bool) ([]byte, bool) {
 	key := "enc/point/" + G.name
 	replay := map[string]string{"group": G.name, "path": path}
 	// (e) encoding does not change the value: clone first, compare afterwards
@@ -635,6 +667,9 @@ func (g *gen) pointBattery(G *grp, p kyber.Point, path string, r *vh.Rng) ([]byt
 			replay["reenc"] = vh.Hex(rb)
 			g.rep.Fail(key+"/reencode-differs", "re-encoding is not byte-identical", replay)
 		}
+	}
+	if light { // clauses (a), (b), (e) only: the wrappers of this value class are exercised elsewhere
+		return b, true
 	}
 	// (d) stream wrappers and hex helpers
 	var buf bytes.Buffer
@@ -686,7 +721,10 @@ func (g *gen) pointBattery(G *grp, p kyber.Point, path string, r *vh.Rng) ([]byt
 	return b, true
 }
 
-func (g *gen) pointPool(G *grp, r *vh.Rng, exprs []*pexp) {
+func (g *gen) pointPool(G *grp, r *vh.Rng, exprs []*pexp) { g.pointPoolL(G, r, exprs, -1) }
+
+// entries from index lightFrom on (if >= 0) get the battery without the stream/hex wrappers
+func (g *gen) pointPoolL(G *grp, r *vh.Rng, exprs []*pexp, lightFrom int) {
 	g.id++
 	if exprs == nil {
 		exprs = pool(G, r, nil)
@@ -697,20 +735,21 @@ func (g *gen) pointPool(G *grp, r *vh.Rng, exprs []*pexp) {
 		p   kyber.Point
 		b   []byte
 		cls int
+		dl  *big.Int
 	}
 	var ents []ent
-	for _, e := range exprs {
+	for i, e := range exprs {
 		var p kyber.Point
 		pan, msg := vh.Try(func() { p = e.eval(G) })
 		if pan || p == nil {
 			g.rep.Dist("unsupported/" + G.name + ": " + firstLine(msg))
 			continue
 		}
-		b, ok := g.pointBattery(G, p, e.String(), r)
+		b, ok := g.pointBattery(G, p, e.String(), r, lightFrom >= 0 && i >= lightFrom)
 		if !ok {
 			continue
 		}
-		ents = append(ents, ent{e: e, p: p, b: b, cls: -1})
+		ents = append(ents, ent{e: e, p: p, b: b, cls: -1, dl: e.dlog(G.q)})
 	}
 	// (c) Equal <=> identical bytes, over all pairs; classes under Equal
 	for i := range ents {
@@ -724,7 +763,7 @@ func (g *gen) pointPool(G *grp, r *vh.Rng, exprs []*pexp) {
 						"bytes1": vh.Hex(ents[i].b), "bytes2": vh.Hex(ents[j].b)})
 			}
 			// the same question decided independently of the implementation's Equal
-			if sameElt := ents[i].e.dlog(G.q).Cmp(ents[j].e.dlog(G.q)) == 0; sameElt != same {
+			if sameElt := ents[i].dl.Cmp(ents[j].dl) == 0; sameElt != same {
 				g.rep.Fail(key+"/bytes-vs-group-element", fmt.Sprintf("same group element=%v but identical bytes=%v", sameElt, same),
 					map[string]string{"group": G.name, "path1": ents[i].e.String(), "path2": ents[j].e.String(),
 						"bytes1": vh.Hex(ents[i].b), "bytes2": vh.Hex(ents[j].b)})
@@ -915,7 +954,7 @@ func (g *gen) craftedCase(G *grp, r *vh.Rng) {
 		return
 	}
 	g.id++
-	b, ok := g.pointBattery(G, t, fmt.Sprintf("Decode(canonical encoding, coordinate with %d leading zero bytes)", c.z), r)
+	b, ok := g.pointBattery(G, t, fmt.Sprintf("Decode(canonical encoding, coordinate with %d leading zero bytes)", c.z), r, false)
 	if !ok {
 		return
 	}
@@ -959,6 +998,12 @@ func (g *gen) craftedCase(G *grp, r *vh.Rng) {
 	}
 	if poolSafe(G) {
 		H := &pexp{op: "var", pt: t, d: r.BigBelow(G.q), how: fmt.Sprintf("crafted,%d leading zero bytes", c.z)}
+		// the smallest crafted x can be the generator's (BN G1: B = (1,2)): then the logarithm is known
+		if B := G.g.Point().Base(); t.Equal(B) {
+			H.d = big.NewInt(1)
+		} else if t.Equal(G.g.Point().Neg(B)) {
+			H.d = new(big.Int).Sub(G.q, big.NewInt(1))
+		}
 		g.pointPool(G, r, pool(G, r, H))
 	}
 }
@@ -1049,17 +1094,24 @@ func groups(rep *vh.Report) []*grp {
 
 func main() {
 	o := vh.ParseFlags()
+	if pf := os.Getenv("C03_PROF"); pf != "" {
+		f, _ := os.Create(pf)
+		pprof.StartCPUProfile(f)
+		defer pprof.StopCPUProfile()
+	}
 	rng := vh.NewRng(o.Seed)
 	rep := vh.NewReport("C03", o.Seed, o.Tier)
-	rep.Rule = "scalars, per implementation (ed25519, mod.Int for P-256/BN256/BN254/kilic/QR-512 and synthetic moduli in both byte orders, CIRCL, gnark): reduced values {0,1,q-1,small,2^k,edge-biased operands} reached via arithmetic/SetBytes/Neg/Pick/UnmarshalBinary -> MarshalBinary, UnmarshalBinary, re-encoding, Equal; MarshalTo onto a pre-filled writer; UnmarshalFrom through plain/one-byte/half readers with tails and truncated inputs; hex helpers (upper/lower case, tails, truncated). points, per group (edwards25519, 3 vartime curves, P-256, QR-512, G1/G2/GT of bn256, bn254, kilic, CIRCL, gnark): pools of values reached by different computation paths (Null, B-B, 0*B, q*B, B+B, 2B, -(q-2)B, kB three ways, picked/embedded/hashed points and their multiples, pairing outputs): partition by model logarithm = partition by bytes = partition by Equal; points with 1..31 (63) leading zero bytes in a coordinate, computed by the harness from the curve equations (P-256, BN256/BN254 G1, residue group, Ed25519 x3), decoded and re-encoded directly / after Neg / after arithmetic, byte-exact against the fixed-width layout model; multiples i*B by repeated addition selected for zero bytes at field starts; every reader-based helper driven with plain / one-byte / half / data+EOF (one chunk, single bytes) / empty-read readers. distinct = distinct canonical case text; non-trivial = non-zero value / pool of >= 2 points"
+	rep.Rule = "scalars, per implementation (ed25519, mod.Int for P-256/BN256/BN254/kilic/QR-512 and synthetic moduli in both byte orders, CIRCL, gnark): reduced values {0,1,q-1,small,2^k,edge-biased operands} reached via arithmetic/SetBytes/Neg/Pick/UnmarshalBinary -> MarshalBinary, UnmarshalBinary, re-encoding, Equal; MarshalTo onto a pre-filled writer; UnmarshalFrom through plain/one-byte/half readers with tails and truncated inputs; hex helpers (upper/lower case, tails, truncated). points, per group (edwards25519, 3 vartime curves, P-256, QR-512, G1/G2/GT of bn256, bn254, kilic, CIRCL, gnark): pools of values reached by different computation paths (Null, B-B, 0*B, q*B, B+B, 2B, -(q-2)B, kB three ways, picked/embedded/hashed points and their multiples, pairing outputs): partition by model logarithm = partition by bytes = partition by Equal; points with 1..31 (63) leading zero bytes in a coordinate, computed by the harness from the curve equations (P-256, BN256/BN254 G1, residue group, Ed25519 x3), decoded and re-encoded directly / after Neg / after arithmetic, byte-exact against the fixed-width layout model; multiples i*B by repeated addition selected for zero bytes at field starts; every reader-based helper driven with plain / one-byte / half / data+EOF (one chunk, single bytes) / empty-read readers. object histories (history.go), for every scalar implementation and every group (plus two further vartime curve objects, oracles only): receiver - UnmarshalBinary, UnmarshalFrom, SetBytes (empty, minimal, full, long), SetInt64 (0, 1, -1, small, large, negative), Zero, One, Set, Pick / point UnmarshalBinary and UnmarshalFrom of the identity, B, -B, kB, Null, Base, Set, Pick, Embed are executed on a fresh object and on dirty ones (holding 0/identity, 1/base, q-1/-B, a full-width or small value, a product / a Mul or Add result in projective coordinates, Sub(A,A), a picked value, a value decoded once or twice, whatever a refused decode of a short / out-of-range / garbage buffer left, an object cleared by Null): same encoding, Equal, String and same result of a later addition as on the fresh receiver, and the canonical bytes of the known value (scalars: some handed to the model as CScalar); buffer - the slice handed to UnmarshalBinary/SetBytes/Embed sits inside a larger array that is compared with a snapshot afterwards, is decoded a second time, then overwritten and the object re-encoded; slices returned by MarshalBinary/Data are overwritten and the object re-encoded; provenance - scalars Neg(0), Sub(a,a), Add(a,Neg(a)), Add(q-1,1), Mul(a,0), Inv(1), Div(a,a), Neg(Neg(a)), SetInt64(negative), SetBytes(long) ...: canonical bytes (CScalar), Equal to the decoded value, Equal iff same bytes pairwise; points Neg(Null), Neg(Neg(Null)), Sub(X,X) and Add(X,Neg(X)) on ONE object, 0*A, q*A, Mul by the scalars Add(q-1,1) / Add(k,-k), k*Null, Null+Null, pairings with an identity argument, and finite values after Neg(Neg), (A+B)-B, A+Null, (q-1)*A: one pool per group with the battery on each, partition by logarithm = by bytes = by Equal (CPoints), identity encodings byte for byte against Null() and against the layout model (CCoord: P-256, BN G1, residue, Ed25519 x3). distinct = distinct canonical case text; non-trivial = non-zero value / pool of >= 2 points"
 	g := &gen{rep: rep, search: o.Search}
 	insts := sc.Instances()
 	nScalar, nPools, nCrafted, nScan := 1500, 4, 6, 200
+	nHist, nHistEmit := 1, 4
 	if o.Thorough {
 		nScalar, nPools, nCrafted, nScan = 12000, 40, 60, 1500
+		nHist, nHistEmit = 6, 20
 	}
 	if o.Search {
-		nScalar, nPools, nCrafted = nScalar*6, nPools*4, nCrafted*6
+		nScalar, nPools, nCrafted, nHist = nScalar*6, nPools*4, nCrafted*6, nHist*4
 	}
 	wsum := 0
 	for _, in := range insts {
@@ -1079,6 +1131,7 @@ func main() {
 				g.streamCases(in, c)
 			}
 		}
+		g.scalarHistory(in, r.Fork(), nHistEmit)
 	}
 	for _, G := range groups(rep) {
 		r := rng.Fork()
@@ -1093,6 +1146,12 @@ func main() {
 			g.craftedCase(G, r.Fork())
 		}
 		g.scanCase(G, r.Fork(), nScan)
+		for k := 0; k < nHist; k++ {
+			g.pointHistory(G, r.Fork(), true)
+		}
+	}
+	for _, G := range extraHistoryGroups() {
+		g.pointHistory(G, rng.Fork(), false)
 	}
 	if !o.Search {
 		cf := &vh.CaseFile{Header: "From Kyber Require Import Codec.EncSM Codec.EncRun.", Type: "case", Runner: "mismatches", Items: g.items}
